@@ -4,9 +4,10 @@ import CentrifugeVerif.Model.RedisPush
 Driver for C33.  Ops (payloads hex encoded, `-` = empty):
 * `ext <hex>`     → `PANIC` | `ok=<0|1> type=<n> off=<n> epoch=<hex> delta=<0|1> data=<hex> prev=<hex>`
 * `pdp <hex>`     → `PANIC` | `err=<kind>` | `ok off=… epoch=… pl=… prev=… l=… payload=…`
-* `handle <hex>`  → `PANIC` | `nopanic`   (handleRedisClientMessage: panics iff extractPushData does)
+* `handle <hex>`  → `PANIC` | `nopanic`   (handleRedisClientMessage: panics iff extractPushData does — never, `extract_total`)
 * `cls <hex>`     → `class=<none|pHeaderShort|prevLenNegative|prevLenEqRemaining|payloadLenNegative>` (model only)
-* `fixed <hex>`   → like `ext`, for the proposed fixed function (model only)
+* `ovf <hex>`     → `class=<none|prevLenMaxInt>` — the one shape on which the current code still panics (model only)
+* `pre <hex>`     → like `ext`, for the code before commit e8dc9ebe (model only)
 * `build <kind> <off> <epoch> <prev> <payload>` → `frame=<hex>` | `frame=none` (model only)
 -/
 open CentrifugeVerif DriverLib RedisPush
@@ -51,14 +52,17 @@ def step (line : String) : String :=
   | ["ext", h] => match unhex h with
     | some d => showPush (extractPushData d)
     | none => "bad-op"
-  | ["fixed", h] => match unhex h with
-    | some d => showPush (extractPushDataFixed d)
+  | ["pre", h] => match unhex h with
+    | some d => showPush (extractPushDataPre d)
     | none => "bad-op"
   | ["pdp", h] => match unhex h with
     | some d => showDelta (parseDeltaPush d)
     | none => "bad-op"
   | ["handle", h] => match unhex h with
     | some d => if (extractPushData d).isPanic then "PANIC" else "nopanic"
+    | none => "bad-op"
+  | ["ovf", h] => match unhex h with
+    | some d => if overflowClass d then "class=prevLenMaxInt" else "class=none"
     | none => "bad-op"
   | ["cls", h] => match unhex h with
     | some d => s!"class={className (panicClass d)}"
